@@ -165,7 +165,7 @@ def ensure_built(log=print):
         if rc == 0:
             info["bridge"] = True
             audit_imports.append("import MoqModel.BridgeThm")
-            audit_lines += ["#print axioms Moq.bridge", "#print axioms Moq.bridge_file", "#print axioms Moq.bridge_bodies"]
+            audit_lines += ["#print axioms Moq.bridge", "#print axioms Moq.bridge_file", "#print axioms Moq.bridge_bodies", "#print axioms Moq.bridge_header"]
         else:
             info["bridge"] = "; ".join([l for l in (o + e).splitlines() if "error" in l][:3])[:600] or "build failed"
         audit = os.path.join(LEAN, "Audit.lean")
